@@ -1,5 +1,6 @@
 import ParryModel.C13.DriverA
 import ParryModel.C13.Model4
+import ParryModel.C13.Model5
 /-!
 C13 protocol handlers, growth round fu4 (the earlier handlers are in `DriverA.lean`):
 `with_inertia_matrix` after `symmetric_eigen`, inverse tensors, `set_mass`, assign operators / folds,
@@ -391,11 +392,137 @@ where
         | none => none
     go s [] s.length
 
+/-! ## growth round fu5: 2-D Compound with five part kinds and > 4 parts; `transform_by` vs `+` in 3-D -/
+
+/-- parts of a 2-D compound: `0 r` ball, `1 he` cuboid, `2 n pts…` convex polygon (CCW), `3 a b c` triangle,
+`4 a b` Segment (no area: `zero()`, a zero-mass member once placed) -/
+inductive Part2b where
+  | base (p : Part2)
+  | tri (t : Triangle2 Float)
+  | seg (a b : V2 Float)
+def ppart2b : P (Iso2 Float × Part2b) := do
+  let m ← piso2
+  let k ← pnat
+  match k with
+  | 0 => do let r ← pf; pure (m, .base (.ball r))
+  | 1 => do let he ← pv2; pure (m, .base (.cuboid he))
+  | 2 => do let vs ← plist pv2; pure (m, .base (.poly vs))
+  | 3 => do let t ← ptri2; pure (m, .tri t)
+  | _ => do let a ← pv2; let b ← pv2; pure (m, .seg a b)
+/-- `Shape::mass_properties(density)` of a part (model side); `none` = rejected / panicking part -/
+def partMPb (d : Float) : Part2b → Option (MP2 Float)
+  | .base p => partMP d p
+  | .tri t => some (fromTriangle d t)
+  | .seg _ _ => some MP2.zero
+def movePt (m : Iso2 Rat) (p : V2 Rat) : V2 Rat := ⟨m.re * p.x - m.im * p.y + m.t.x, m.im * p.x + m.re * p.y + m.t.y⟩
+/-- exact unit-density moments about the origin of a placed part, and the rounding allowance of its degenerate triangles -/
+def partMomb (m : Iso2 Rat) : Part2b → Option ((Rat × V2 Rat × Rat) × Rat)
+  | .base p => some (partMom m p, 0)
+  | .tri t =>
+      let a := movePt m (q2 t.a); let b := movePt m (q2 t.b); let c := movePt m (q2 t.c)
+      some (triMom a b c, triSlack a b c)
+  | .seg _ _ => some ((0, ⟨0, 0⟩, 0), 0)
+def partExtentb (m : Iso2 Rat) : Part2b → Rat
+  | .base p => partExtent m p
+  | .tri t => extent (ptsOfTri t)
+  | .seg a b => extent [q2 a, q2 b]
+
+/-- exact image of origin moments `(μ, F, O)` under the rigid motion `x ↦ R x + t` -/
+def movedMom3 (R : RM3) (t : V3 Rat) (M : Rat × V3 Rat × RM3) : Rat × V3 Rat × RM3 :=
+  let (μ, F, O) := M
+  let u : V3 Rat := ⟨rget R 0 0 * F.x + rget R 0 1 * F.y + rget R 0 2 * F.z, rget R 1 0 * F.x + rget R 1 1 * F.y + rget R 1 2 * F.z,
+                     rget R 2 0 * F.x + rget R 2 1 * F.y + rget R 2 2 * F.z⟩
+  let d := u.x * t.x + u.y * t.y + u.z * t.z
+  let X : RM3 := rm fun i j => (if i = j then 2 * d else 0) - u.get i * t.get j - t.get i * u.get j
+  (μ, ⟨u.x + μ * t.x, u.y + μ * t.y, u.z + μ * t.z⟩, radd (radd (rmul (rmul R O) (rtr R)) X) (steiner μ t))
+
+def movedScale3 (t : V3 Rat) (sc : Rat × Rat × Rat) : Rat × Rat × Rat :=
+  let n := rabs t.x + rabs t.y + rabs t.z
+  (sc.1, 3 * sc.2.1 + sc.1 * n, 9 * sc.2.2 + 6 * n * sc.2.1 + 3 * n * n * sc.1)
+
+def handler5 (fn : String) : Option Handler :=
+  match fn with
+  | "compound2_shape" => some {
+      model := fun a => run (do let d ← pf; let ps ← plist ppart2b
+                                let mps := ps.map fun (m, s) => (partMPb d s).map fun mp => (m, mp)
+                                if mps.any Option.isNone then pure "none"
+                                else pure (fmp2 (fromCompound2 (mps.filterMap id)))) a
+      oracle := fun a o => match run (do let d ← pf; let ps ← plist ppart2b; pure (d, ps)) a with
+        | some (d, ps) =>
+          if o = ["none"] then "skip part-rejected" else
+          withOut pomp2 o fun out =>
+            let ms := ps.map fun (m, s) => partMomb (qiso2 m) s
+            if ms.any Option.isNone then "fail no-panic-on-bad-index" else
+            let ms := ms.filterMap id
+            let tot := sumMom (ms.map Prod.fst)
+            let slack := ms.foldl (fun s e => s + e.2) 0
+            let ext := ps.foldl (fun e (m, s) => rmax e (partExtentb (qiso2 m) s)) 0
+            let spread := extent (ps.map fun (m, _) => q2 m.t)
+            judgeLamina (q d) tot (ext + spread) out slack
+        | none => "skip bad-args" }
+  | "mp3_tadd" => some {
+      model := fun a => run (do let x ← pmp3; let y ← pmp3; let m ← piso3
+                                let s := MP3.addObs x y
+                                let r := MP3.addObs (x.transformBy m) (y.transformBy m)
+                                pure s!"{ff s.1} {fv3 (m.act s.2.1)} {fmc3 r}") a
+      oracle := fun a o => match run (do let x ← pmp3; let y ← pmp3; let m ← piso3; pure (x, y, m)) a with
+        | some (x, y, m) => withOut (do let l ← pomc3; let r ← pomc3; pure (l, r)) o fun (l, r) =>
+            if q x.invMass < 0 ∨ q y.invMass < 0 then "skip negative-mass" else
+            let M := qiso3 m
+            let want := movedMom3 (rotOfQuat M.qi M.qj M.qk M.qw) M.t (sumMom3 [mom3 x, mom3 y])
+            let sc := movedScale3 M.t (momScale3 [x, y])
+            both (judgeMC3 want sc l) (judgeMC3 want sc r)
+        | none => "skip bad-args" }
+  | "mp3_tadd_tensor" => some {
+      model := fun _ => "oracle-only"
+      oracle := fun a o => match run (do let x ← pmp3; let y ← pmp3; let m ← piso3; pure (x, y, m)) a with
+        | some (x, y, m) => withOut (do let l ← pom3; let r ← pom3; pure (l, r)) o fun (l, r) =>
+            if q x.invMass < 0 ∨ q y.invMass < 0 then "skip negative-mass" else
+            let M := qiso3 m
+            let want := movedMom3 (rotOfQuat M.qi M.qj M.qk M.qw) M.t (sumMom3 [mom3 x, mom3 y])
+            let sc := movedScale3 M.t (momScale3 [x, y])
+            -- the Float-model comparison of `judgeTensor3` is not used here (third argument = the output itself)
+            let known (v : String) : String :=
+              if v.startsWith "fail principal-frame" then
+                "skip eigenvectors-inaccurate (nalgebra symmetric_eigen finding, reported through mp3_add_tensor)" else v
+            both (known (judgeTensor3 want sc l l)) (known (judgeTensor3 want sc r r))
+        | none => "skip bad-args" }
+  | "mp2_world" => some {
+      model := fun a => run (do let p ← pmp2; let m ← piso2; pure s!"{fv2 (p.worldCom m)} {ff (p.worldInvInertiaSqrt m)}") a
+      oracle := fun a o => match run (do let p ← pmp2; let m ← piso2; pure (p, m)) a with
+        | some (p, m) => withOut (do let x ← pfo; let y ← pfo; let i ← pfo; pure (x, y, i)) o fun (x, y, i) =>
+            let M := qiso2 m
+            let c := q2 p.com
+            let want : V2 Rat := ⟨M.re * c.x - M.im * c.y + M.t.x, M.im * c.x + M.re * c.y + M.t.y⟩
+            let s := rabs c.x + rabs c.y + rabs M.t.x + rabs M.t.y + 1 / 1000000
+            if !(FloatIO.isFinite x && FloatIO.isFinite y) then "fail nonfinite-output"
+            else if q i ≠ q p.invI then "fail inertia-changed-by-rotation"
+            else if close (q x) want.x s && close (q y) want.y s then "pass"
+            else s!"fail world-com got=({q x},{q y}) want=({want.x},{want.y})"
+        | none => "skip bad-args" }
+  | "mp3_world_com" => some {
+      model := fun a => run (do let p ← pmp3; let m ← piso3; pure (fv3 (p.worldCom m))) a
+      oracle := fun a o => match run (do let p ← pmp3; let m ← piso3; pure (p, m)) a with
+        | some (p, m) => withOut pov3 o fun out =>
+            if !finite3 out then "fail nonfinite-output" else
+            let M := qiso3 m
+            let Rm := rotOfQuat M.qi M.qj M.qk M.qw
+            let c := q3 p.com
+            let rc : V3 Rat := ⟨rget Rm 0 0 * c.x + rget Rm 0 1 * c.y + rget Rm 0 2 * c.z + M.t.x,
+                                rget Rm 1 0 * c.x + rget Rm 1 1 * c.y + rget Rm 1 2 * c.z + M.t.y,
+                                rget Rm 2 0 * c.x + rget Rm 2 1 * c.y + rget Rm 2 2 * c.z + M.t.z⟩
+            let s := rabs c.x + rabs c.y + rabs c.z + rabs M.t.x + rabs M.t.y + rabs M.t.z + 1 / 1000000
+            if close (q out.x) rc.x s && close (q out.y) rc.y s && close (q out.z) rc.z s then "pass" else "fail world-com"
+        | none => "skip bad-args" }
+  | _ => none
+
 def handler (fn : String) : Option Handler :=
   match handlerA fn with
   | some h => some h
   | none => match handler4 fn with
     | some h => some h
-    | none => handlerShape fn
+    | none => match handlerShape fn with
+      | some h => some h
+      | none => handler5 fn
 
 end C13
